@@ -170,3 +170,30 @@ Qed.
 (* a failed send leaves no dangling registration *)
 Theorem send_failure_unregisters s cb : callbacks (req_step s (ERequest cb false)) = callbacks s.
 Proof. reflexivity. Qed.
+
+(* ... and it stays unknown for ever: over ANY further history *)
+Lemma find_key_remove_none q k l : find_key q l = None -> find_key q (remove_key k l) = None.
+Proof.
+  induction l as [|[a b] t IH]; cbn; [auto|]. destruct (Z.eqb_spec a q); [discriminate|]. intros H.
+  destruct (Z.eqb a k); cbn; [now apply IH|]. destruct (Z.eqb_spec a q); [contradiction|now apply IH].
+Qed.
+Lemma unknown_below_counter_step s e q : (q < next_seq s)%Z -> find_key q (callbacks s) = None ->
+  (q < next_seq (req_step s e))%Z /\ find_key q (callbacks (req_step s e)) = None.
+Proof.
+  intros Hlt Hn. destruct e as [cb ok|q' x|q' g]; cbn.
+  - split; [lia|]. destruct ok; cbn; [|exact Hn]. destruct (Z.eqb_spec (next_seq s) q); [lia|exact Hn].
+  - destruct (find_key q' (callbacks s)); cbn; [|auto]. split; [exact Hlt|now apply find_key_remove_none].
+  - destruct g; [|auto]. destruct (find_key q' (callbacks s)); cbn; [|auto]. split; [exact Hlt|now apply find_key_remove_none].
+Qed.
+Theorem answered_stays_unknown_forever s q is_exc evs : InvR s -> find_key q (callbacks s) <> None ->
+  find_key q (callbacks (fold_left req_step evs (req_step s (EResponse q is_exc)))) = None.
+Proof.
+  intros [Hn Hlt] Hq. destruct (find_key q (callbacks s)) as [cb|] eqn:E; [|congruence].
+  assert (Hin : In q (keys s)) by (apply find_key_in in E; unfold keys; apply in_map_iff; exists (q, cb); auto).
+  pose proof (Hlt q Hin) as Hlt1.
+  assert (H0 : (q < next_seq (req_step s (EResponse q is_exc)))%Z /\ find_key q (callbacks (req_step s (EResponse q is_exc))) = None).
+  { cbn. rewrite E. cbn. split; [exact Hlt1|]. clear. induction (callbacks s) as [|[a b] t IH]; cbn; [reflexivity|].
+    destruct (Z.eqb_spec a q); cbn; [exact IH|]. destruct (Z.eqb_spec a q); [contradiction|exact IH]. }
+  revert H0. generalize (req_step s (EResponse q is_exc)). induction evs as [|e t IH]; intros s0 [A B]; cbn; [exact B|].
+  apply IH. now apply unknown_below_counter_step.
+Qed.
